@@ -30,11 +30,11 @@ Qed.
 
 (* what an event makes of the registry's map *)
 Lemma rvals_step : forall s e, rvals (step s e) = truth_step (rvals s) e.
-Proof. intros s [k v|k|snap adds rems|x order]; reflexivity. Qed.
+Proof. intros s [k v|k|snap calls|x order]; reflexivity. Qed.
 
 Lemma truth_step_nodup : forall t e, NoDup (mkeys t) -> NoDup (mkeys (truth_step t e)).
 Proof.
-  intros t [k v|k|snap adds rems|x order] H; cbn -[mset].
+  intros t [k v|k|snap calls|x order] H; cbn -[mset].
   - apply nodup_mset. exact H.
   - apply nodup_mdel. exact H.
   - apply snap_map_nodup.
@@ -47,7 +47,7 @@ Lemma present_cont_step : forall s e c,
   cont_ok (rvals (step s e)) (c_run c (emitted e)).
 Proof.
   intros s e c Hd Hwf [m [R Ht]].
-  destruct e as [k v|k|snap adds rems|x order].
+  destruct e as [k v|k|snap calls|x order].
   - (* PUT *)
     apply (batch_tied (cexcl c) c m (rvals s)); try assumption; try reflexivity; cbn -[mset].
     + intros k' v' [H|[]]. inversion H; subst. rewrite mget_mset, Z.eqb_refl. reflexivity.
@@ -65,16 +65,16 @@ Proof.
       * apply Z.eqb_eq in Ek. subst. intros _ _. left. reflexivity.
       * congruence.
   - (* reload *)
-    destruct Hwf as [Pa Pr].
+    cbn [wf_ev] in Hwf.
     apply (batch_tied (cexcl c) c m (rvals s)); try assumption; try reflexivity;
       cbn [emitted rvals step].
-    + intros k v. rewrite in_emitted_reload_add, (perm_in_iff _ _ _ _ Pa).
+    + intros k v. rewrite (perm_in_iff _ _ _ _ Hwf), in_emitted_reload_add.
       rewrite calc_add_in by apply snap_map_nodup. tauto.
-    + intros k v H1 H2. rewrite in_emitted_reload_add, (perm_in_iff _ _ _ _ Pa).
+    + intros k v H1 H2. rewrite (perm_in_iff _ _ _ _ Hwf), in_emitted_reload_add.
       rewrite calc_add_in by apply snap_map_nodup. tauto.
-    + intros k. rewrite in_emitted_reload_del, (perm_in_iff _ _ _ _ Pr).
+    + intros k. rewrite (perm_in_iff _ _ _ _ Hwf), in_emitted_reload_del.
       rewrite calc_rem_in by exact Hd. tauto.
-    + intros k H1 H2. rewrite in_emitted_reload_del, (perm_in_iff _ _ _ _ Pr).
+    + intros k H1 H2. rewrite (perm_in_iff _ _ _ _ Hwf), in_emitted_reload_del.
       rewrite calc_rem_in by exact Hd. tauto.
   - (* somebody else joins: no call *)
     cbn. exists m. split; assumption.
@@ -101,7 +101,7 @@ Lemma conts_step : forall s e,
   map (fun c => c_run c (emitted e)) (conts s) ++
   match e with EJoin x order => [c_run (new_container x) (ladds order)] | _ => [] end.
 Proof.
-  intros s [k v|k|snap adds rems|x order]; cbn [step conts]; rewrite ?app_nil_r; try reflexivity.
+  intros s [k v|k|snap calls|x order]; cbn [step conts]; rewrite ?app_nil_r; try reflexivity.
   f_equal. cbn. symmetry. rewrite <- (map_id (conts s)) at 2. apply map_ext. reflexivity.
 Qed.
 
@@ -113,7 +113,7 @@ Proof.
     + apply Forall_forall. intros c' Hin. apply in_map_iff in Hin. destruct Hin as [c [<- Hin]].
       apply present_cont_step; try assumption.
       rewrite Forall_forall in Hc. apply Hc. exact Hin.
-    + destruct e as [k v|k|snap adds rems|x order]; try constructor; [|constructor].
+    + destruct e as [k v|k|snap calls|x order]; try constructor; [|constructor].
       cbn [step rvals]. apply joining_cont; assumption.
 Qed.
 
@@ -266,12 +266,12 @@ Proof.
 Qed.
 
 (* a reload that finds the registrations unchanged calls nobody *)
-Lemma reload_same_is_silent : forall s snap adds rems,
-  NoDup (mkeys (rvals s)) -> wf_ev s (EReload snap adds rems) ->
+Lemma reload_same_is_silent : forall s snap calls,
+  NoDup (mkeys (rvals s)) -> wf_ev s (EReload snap calls) ->
   (forall k, mget k (snap_map snap) = mget k (rvals s)) ->
-  emitted (EReload snap adds rems) = [].
+  emitted (EReload snap calls) = [].
 Proof.
-  intros s snap adds rems Hd [Pa Pr] Hsame.
+  intros s snap calls Hd P Hsame. cbn [wf_ev] in P.
   assert (Ha : calc_add (rvals s) (snap_map snap) = []).
   { destruct (calc_add (rvals s) (snap_map snap)) as [|[k v] l] eqn:E; [reflexivity|].
     assert (Hin : In (k, v) (calc_add (rvals s) (snap_map snap))) by (rewrite E; left; reflexivity).
@@ -280,7 +280,6 @@ Proof.
   { destruct (calc_rem (rvals s) (snap_map snap)) as [|k l] eqn:E; [reflexivity|].
     assert (Hin : In k (calc_rem (rvals s) (snap_map snap))) by (rewrite E; left; reflexivity).
     apply calc_rem_in in Hin; [|exact Hd]. rewrite Hsame in Hin. tauto. }
-  rewrite Ha in Pa. rewrite Hr in Pr.
-  apply Permutation_sym, Permutation_nil in Pa. apply Permutation_sym, Permutation_nil in Pr.
-  subst. reflexivity.
+  rewrite Ha, Hr in P. cbn in P.
+  apply Permutation_sym, Permutation_nil in P. subst. reflexivity.
 Qed.
